@@ -74,7 +74,7 @@ func sigShapes(creator int) map[string][]hg.BlockSignature {
 func init() {
 	checks["C15"] = func(args []string) int {
 		rep := ev.NewReport("C15", "exploration")
-		th := ev.Tier() == "thorough"
+		th := true // both tiers enumerate the full shape grammar (a minute)
 		seen := map[string]bool{}
 		viol := func(key, what string, rp map[string]interface{}) {
 			if seen[key] {
